@@ -145,6 +145,21 @@ def impl_index(mir):
             continue
         mm = _IMPL_LINE.match(lines[line - 1])
         if not mm:
+            # #[derive(Trait, ..)] at (line, col): the trait is the identifier at `col`, the type is the next item
+            src = lines[line - 1]
+            col = int(m.group(3)) - 1
+            dm = re.match(r"\w+", src[col:]) if "derive" in src else None
+            tname = None
+            for l2 in lines[line:line + 12]:
+                t2 = re.match(r"\s*(?:pub(?:\([^)]*\))?\s+)?(?:struct|enum|union)\s+(\w+)", l2)
+                if t2:
+                    tname = t2.group(1)
+                    break
+            if not dm or not tname:
+                continue
+            method = name[m.end():]
+            if method.startswith("::") and "::" not in method[2:]:
+                idx["<%s as %s>::%s" % (tname, dm.group(0), method[2:])] = name
             continue
         trait, ty = mm.group(1), mm.group(2).split("::")[-1]
         method = name[m.end():]
